@@ -176,25 +176,25 @@ Inductive presult (A : Type) :=
 | PBad (s : site) (expected : call) (got : tentry) (st : rstate).
 Arguments PDone {A}. Arguments PBlocked {A}. Arguments PPanic {A}. Arguments PBad {A}.
 
-Fixpoint replay_prefix {A} (p : prog A) (st : rstate) : presult A :=
+Fixpoint replay_prefix_r {A} (rank : list host * list host) (p : prog A) (st : rstate) : presult A :=
   match p with
   | Ret a => PDone a st
   | Panic s => PPanic s st
   | Do s c k =>
       let st := visit s st in
       match c with
-      | Now => replay_prefix (k (RZ (r_clock st))) st
-      | Sleep d => replay_prefix (k ROk) {| r_rest := r_rest st; r_last := r_last st; r_clock := r_clock st + d; r_files := r_files st; r_sites := r_sites st |}
-      | FileExists f => replay_prefix (k (RBool (file_get f (r_files st)))) st
-      | Peek c' => replay_prefix (k (RBool (match take_fp (footprint c') (r_rest st) with Some _ => true | None => false end))) st
-      | FileWrite f => replay_prefix (k ROk) {| r_rest := r_rest st; r_last := r_last st; r_clock := r_clock st; r_files := file_set f true (r_files st); r_sites := r_sites st |}
-      | FileRemove f => replay_prefix (k ROk) {| r_rest := r_rest st; r_last := r_last st; r_clock := r_clock st; r_files := file_set f false (r_files st); r_sites := r_sites st |}
+      | Now => replay_prefix_r rank (k (RZ (r_clock st))) st
+      | Sleep d => replay_prefix_r rank (k ROk) {| r_rest := r_rest st; r_last := r_last st; r_clock := r_clock st + d; r_files := r_files st; r_sites := r_sites st |}
+      | FileExists f => replay_prefix_r rank (k (RBool (file_get f (r_files st)))) st
+      | Peek c' => replay_prefix_r rank (k (RBool (match take_fp (footprint c') (r_rest st) with Some _ => true | None => false end))) st
+      | FileWrite f => replay_prefix_r rank (k ROk) {| r_rest := r_rest st; r_last := r_last st; r_clock := r_clock st; r_files := file_set f true (r_files st); r_sites := r_sites st |}
+      | FileRemove f => replay_prefix_r rank (k ROk) {| r_rest := r_rest st; r_last := r_last st; r_clock := r_clock st; r_files := file_set f false (r_files st); r_sites := r_sites st |}
       | _ =>
           match take_fp (footprint c) (r_rest st) with
           | None => PBlocked st
           | Some (e, rest) =>
               if call_matches (te_call e) c && (r_last st <? te_idx e) then
-                replay_prefix (k (te_resp e))
+                replay_prefix_r rank (k (te_resp e))
                   {| r_rest := rest; r_last := te_idx e; r_clock := Z.max (r_clock st) (te_time e); r_files := r_files st; r_sites := r_sites st |}
               else PBad s c e st
           end
@@ -204,9 +204,9 @@ Fixpoint replay_prefix {A} (p : prog A) (st : rstate) : presult A :=
       (fix branches (bs : list (host * prog resp)) (cur : rstate) (mx_last mx_clock : Z) (blocked : bool) (acc : list (Z * (host * resp))) : presult A :=
          match bs with
          | [] => if blocked then PBlocked cur
-                 else replay_prefix (k (map snd (sort_by_idx (rev acc)))) {| r_rest := r_rest cur; r_last := mx_last; r_clock := mx_clock; r_files := r_files cur; r_sites := r_sites cur |}
+                 else replay_prefix_r rank (k (rank_sort rank (map snd (sort_by_idx (rev acc))))) {| r_rest := r_rest cur; r_last := mx_last; r_clock := mx_clock; r_files := r_files cur; r_sites := r_sites cur |}
          | (h, b) :: bs' =>
-             match replay_prefix b {| r_rest := r_rest cur; r_last := r_last st0; r_clock := r_clock st0; r_files := r_files cur; r_sites := r_sites cur |} with
+             match replay_prefix_r rank b {| r_rest := r_rest cur; r_last := r_last st0; r_clock := r_clock st0; r_files := r_files cur; r_sites := r_sites cur |} with
              | PDone r st' => branches bs' st' (Z.max mx_last (r_last st')) (Z.max mx_clock (r_clock st')) blocked ((r_last st', (h, r)) :: acc)
              | PBlocked st' => branches bs' st' mx_last mx_clock true acc
              | PPanic s' st' => PPanic s' st'
@@ -214,6 +214,8 @@ Fixpoint replay_prefix {A} (p : prog A) (st : rstate) : presult A :=
              end
          end) bs st0 (r_last st0) (r_clock st0) false []
   end.
+
+Definition replay_prefix {A} (p : prog A) (st : rstate) : presult A := replay_prefix_r ([], []) p st.
 
 Definition init_rstate (tr : list tentry) (t0 : Z) (files : list (N * bool)) : rstate :=
   {| r_rest := tr; r_last := -1; r_clock := t0; r_files := files; r_sites := [] |}.
